@@ -10,4 +10,5 @@ Extraction "model.ml"
   api_emit api_wf api_game_of api_read_map api_mk_replay api_mk_frame api_mk_gecko
   api_rollbacks api_fix_char api_is_scalar api_melee_string
   api_parse_header api_parse_start api_parse_event api_parse_metadata api_rd_exact api_state_version
-  api_frame_view api_arrow_frame api_slpp_archive api_entry_names.
+  api_frame_view api_arrow_frame api_slpp_archive api_entry_names
+  api_step_give api_step_interrupt api_step_fault api_rexact api_read_sched.
